@@ -33,6 +33,15 @@
   `writeResponse`, which reports it whatever its method and status.  `handleMITM` therefore no longer
   reports the 200 itself.
 
+  Repaired (F52): `write` marks a response `res.Close` when the request asked to close (`req.Close`: the
+  `close` connection option, or HTTP/1.0 without keep-alive) and then returns `errClose` — also, formerly,
+  for the 101 that `tunnel` writes for an upgrade request carrying that option (`Connection: Upgrade, close`):
+  `tunnel` returned at once, before `bicopy` and before its deferred report, and the request was never
+  reported complete.  The rule that already exempted a successful CONNECT now exempts every response written
+  with `writeTunnelResponse` (`closesAfterHead`); `Path.upgrade` carries the request's close flag, `tunnelAfter`
+  is `tunnel` given what the head write returned, and `Path.eventsBeforeF52` keeps the former rule as a
+  counter-model.
+
   Repaired (F12): the error response for a CONNECT rejection that happened inside the transport
   (`maybeConnectErrorResponse`) used to keep `res.Request` = the transport's own CONNECT request, so
   the completion was reported under method CONNECT; `writeErrorResponse` now sets `res.Request = req`.
@@ -133,6 +142,25 @@ def tunnel (m : Method) (status : Nat) : TunnelEnd → List Event
   | .drainFailure => writeTunnelResponse m status false ++ [.wrote m status]
   | .closed => writeTunnelResponse m status false ++ [.wrote m status]
 
+/-- which responses `write` never marks `res.Close` (and so never answers with `errClose` once written) -/
+inductive CloseRule
+  /-- the code: `req.Method == CONNECT && 2xx || tunnel` -/
+  | tunnelNeverCloses
+  /-- before the repair of F52: `req.Method == CONNECT && 2xx` -/
+  | connectOnly
+  deriving DecidableEq, Repr
+
+/-- does `write(res, tunnel = true)` return `errClose` after a head that was written without error?
+    `reqClose` = `p.closing() || req.Close`, `connect2xx` = a CONNECT answered 2xx -/
+def closesAfterHead (rule : CloseRule) (reqClose connect2xx : Bool) : Bool :=
+  reqClose && !(connect2xx || rule == .tunnelNeverCloses)
+
+/-- `tunnel` given what the head write returned: on `errClose` (head written, `res.Close` set) it returns
+    before `drainBuffer`, `bicopy` and the report that follows them — nothing is reported -/
+def tunnelAfter (headCloses : Bool) (m : Method) (status : Nat) : TunnelEnd → List Event
+  | .writeError => tunnel m status .writeError
+  | e => if headCloses then writeTunnelResponse m status false else tunnel m status e
+
 /-! ## Exit paths of one iteration of `handle` -/
 
 /-- One way through `handle` (and what it calls).  `m` = method of the request read, `st` = status
@@ -158,8 +186,9 @@ inductive Path
       `handleUpgradeResponse` answers with the 502 of `errNoProtocolSwitch` through `writeErrorResponse`
       (one report, by `writeResponse`; before the repair of F42: nothing written, `wrote m 101` reported) -/
   | upgradeNonWritable (m : Method) (w : Bool)
-  /-- 101: `handleUpgradeResponse` → `tunnel` -/
-  | upgrade (m : Method) (e : TunnelEnd)
+  /-- 101: `handleUpgradeResponse` → `tunnel`; `cl` = the request asked to close the connection
+      (`req.Close`: `Connection: Upgrade, close`, or HTTP/1.0 without keep-alive) -/
+  | upgrade (m : Method) (cl : Bool) (e : TunnelEnd)
   /-- CONNECT: `modifyRequest` failed -/
   | connectRefused (st : Nat) (w : Bool)
   /-- CONNECT: `p.Connect` returned an error (dial failure, upstream proxy unreachable, TLS termination) -/
@@ -189,7 +218,7 @@ def Path.events : Path → List Event
   | .responseModifierError m st w => .read m :: writeErrorResponse m .local st w
   | .response m st w => .read m :: writeResponse m st w
   | .upgradeNonWritable m w => .read m :: writeErrorResponse m .local 502 w
-  | .upgrade m e => .read m :: tunnel m 101 e
+  | .upgrade m cl e => .read m :: tunnelAfter (closesAfterHead .tunnelNeverCloses cl false) m 101 e
   | .connectRefused st w => .read .connect :: writeErrorResponse .connect .local st w
   | .connectDialFailure st w => .read .connect :: writeErrorResponse .connect .local st w
   | .connectResponseModifierError st w => .read .connect :: writeErrorResponse .connect .local st w
@@ -204,7 +233,7 @@ def Path.request : Path → Option Method
   | .readError => none
   | .shutdownAfterRead m | .refused m _ _ | .roundTripError m _ _
   | .transportConnectRejected m _ _ | .responseModifierError m _ _ | .response m _ _
-  | .upgradeNonWritable m _ | .upgrade m _ => some m
+  | .upgradeNonWritable m _ | .upgrade m _ _ => some m
   | _ => some .connect
 
 /-- the status code of the response written (or attempted) to the client -/
@@ -215,7 +244,7 @@ def Path.clientStatus : Path → Nat
   | .connectRefused st _ | .connectDialFailure st _ | .connectResponseModifierError st _
   | .connectRejected st _ | .mitmResponseModifierError st _ => st
   | .upgradeNonWritable _ _ => 502
-  | .upgrade _ _ => 101
+  | .upgrade _ _ _ => 101
   | .connectTunnel _ | .mitmWriteError | .mitmHandoff => 200
 
 /-- the guards of the code under which a path is taken: `handle` dispatches CONNECT away, 101 goes
@@ -231,7 +260,7 @@ def Path.valid : Path → Bool
   | .responseModifierError m st _ => m ≠ .connect && 400 ≤ st
   | .response m st _ => m ≠ .connect && st ≠ 101
   | .upgradeNonWritable m _ => m ≠ .connect
-  | .upgrade m _ => m ≠ .connect
+  | .upgrade m _ _ => m ≠ .connect
   | .connectRefused st _ => 400 ≤ st
   | .connectDialFailure st _ => 400 ≤ st
   | .connectResponseModifierError st _ => 400 ≤ st
@@ -254,6 +283,12 @@ def Path.expected (p : Path) : List Event :=
 /-- the paths the conservation theorems speak about: every path of the grammar outside shutdown
     (no defect class is excluded any more: F12 and F40 are repaired) -/
 def Path.good (p : Path) : Bool := p.valid && !p.shutdown
+
+/-- the events of a path under the rule of `write` before the repair of F52 (commit f5c8c33): only the
+    upgrade path differs, and only when the request asked to close -/
+def Path.eventsBeforeF52 : Path → List Event
+  | .upgrade m cl e => .read m :: tunnelAfter (closesAfterHead .connectOnly cl false) m 101 e
+  | p => p.events
 
 /-- number of requests read on a list of paths -/
 def numRequests (ps : List Path) : Nat := (ps.filter fun p => p.request.isSome).length
